@@ -19,7 +19,8 @@ Print Assumptions C29_reset_atomic.
 
 (* Checkout, every option combination, every error exit (option validation,
    unstaged changes, dangling HEAD, existing branch, unborn HEAD with Create,
-   target that is no commit, unknown reference): the WHOLE state is as before.
+   target that is no commit (missing object, a tree or blob hash, a commit
+   whose tree is missing), unknown reference): the WHOLE state is as before.
    True of the code since the repair "fix: decide every refusal of Checkout
    before the branch is created and HEAD is moved"; before it the model refuted
    the statement (HEAD moved / branch created, then ErrUnstagedChanges). *)
@@ -55,8 +56,18 @@ Example C29_refusals :
   checkout (mkCopts o_other (-1) true true false) c29_state = (Some EBranchExists, c29_state).
 Proof. exact refusals_leave_state. Qed.
 
+Example C29_missing_object_refusals :
+  checkout (mkCopts o_new (-1) true false false) (with_head c29_clean (HDet 9)) = (Some EObjectNotFound, with_head c29_clean (HDet 9)) /\
+  checkout (mkCopts [] 100 false false false) c29_clean = (Some EOther, c29_clean) /\
+  checkout (mkCopts o_new 1 true true false) (without_tree c29_clean [1%Z]) = (Some EObjectNotFound, without_tree c29_clean [1%Z]) /\
+  reset 1 Soft None (with_head c29_clean (HSym (b "refs/tags/t"))) = (Some EOther, with_head c29_clean (HSym (b "refs/tags/t"))).
+Proof. vm_compute. repeat split. Qed.
+
 Example C29_reset_refusals :
   reset 1 Merge None c29_state = (Some EUnstaged, c29_state) /\
   reset 1 Keep None c29_state = (Some ELocalChanges, c29_state) /\
   reset 9 Hard None c29_state = (Some EObjectNotFound, c29_state).
 Proof. vm_compute. repeat split. Qed.
+
+(* Restore, Add, Commit, Merge, Pull and the injected-fault statements live in Properties/C29Ops.v *)
+From GoGit Require Export Properties.C29Ops.
